@@ -100,6 +100,14 @@ pub fn loco_step_case2(id: String, st: &LocoStep, kind: &str, oracle: &dyn Fn(&L
                     }
                 }
             }
+            // a step refused because the engine is off has not burned fuel: the cumulative fuel energy is what it was
+            if m.contains("Engine is off") {
+                if let (PowertrainType::ConventionalLoco(a), Some(Locomotive { loco_type: PowertrainType::ConventionalLoco(b), .. })) = (&st.pre.loco_type, &st.after_err) {
+                    if a.fc.state.energy_fuel.value.to_bits() != b.fc.state.energy_fuel.value.to_bits() {
+                        f.push(format!("a step refused because the engine is off has burned fuel in the cumulative counters ({} -> {} J): a retry counts it twice", a.fc.state.energy_fuel.value, b.fc.state.energy_fuel.value));
+                    }
+                }
+            }
             (Outcome::Err(*c, m.clone()), (f, vec![]))
         }
     };
